@@ -18,6 +18,8 @@ def key_for(o, fn, r, ty):
         parts.append("stmt=" + (o.stmt or "-"))
     if o.kind in ("overflow", "alloc") and facts:
         parts.append("fields=" + ",".join(facts))
+    if o.kind in ("alloc", "divzero") and ("div(" in o.what and ",0)" in o.what or " div 0" in o.what or " rem 0" in o.what):
+        parts.append("zero-sized-element")
     if o.kind == "divzero":
         parts.append("divisor=" + ",".join(sorted({f.split(":")[0] for f in facts})))
     if o.kind == "unmodelled":
